@@ -387,18 +387,25 @@ func vhRecordArtifact(path string, hashAlgorithms []string, lineNormalization bo
 	return HashObj{"sha256": "digest-of-" + path}, nil
 }
 
-// a = {#entries, follow directory symlinks (0/1), strip prefix in use (0/1)}
+// a = {#entries, follow directory symlinks (0/1), #strip prefixes (0..2: "ROOT/", then "sub/")}
 func vh_C13_walk(a []int) {
-	n, follow, strip := a[0], a[1] == 1, a[2] == 1
+	n, follow, nstrip := a[0], a[1] == 1, a[2]
+	strip := nstrip > 0
 	vhTree = nil
-	paths := []string{"ROOT/a", "ROOT/b", "ROOT/c"}
+	paths := []string{"ROOT/sub/a", "ROOT/b", "ROOT/c"}
 	targets := []string{"T1", "T2", "T3"}
 	for i := 0; i < n; i++ {
 		vhTree = append(vhTree, vhEntry{path: paths[i], kind: vChoice("kind", 6), target: targets[i], exclude: vBool("excluded")})
 	}
 	var strips []string
-	if strip {
+	if nstrip == 1 {
 		strips = []string{"ROOT/"}
+	}
+	if nstrip == 2 {
+		strips = []string{"ROOT/", "sub/"}
+	}
+	if nstrip == 3 {
+		strips = []string{"sub/", "ROOT/"}
 	}
 	got, err := RecordArtifacts([]string{"ROOT"}, []string{"sha256"}, []string{"x"}, strips, false, follow)
 	vObserve("walk", err == nil, len(got))
